@@ -46,9 +46,29 @@ type rrState struct {
 	hasPub     bool
 	ctx        context.Context
 	computes   int
+
+	cancelled    bool // the context the rerunner was created with was cancelled (by its owner, not through Stop)
+	cancelParent context.CancelFunc
+
+	// resources the rerunner's computations registered through AddDependency (directly or by adopting a cached
+	// sub-computation) at a time when their release had not been decided: of the running, the returned and the
+	// published computation
+	runClaims                map[int]int
+	pendingClaims, pubClaims map[int]bool
 }
 
 type failure struct{ sig, detail string }
+
+// cval is what a cached sub-computation returns: the pairs it read and the resources it registered.
+type cval struct {
+	pairs  []pair
+	claims []int
+}
+
+type addOutInfo struct {
+	n    int
+	late bool // the release of n had been decided before this addOut
+}
 
 type depEdge struct {
 	to   int
@@ -87,14 +107,15 @@ type Sim struct {
 
 	// liveness of computations and who registered what, for the clause "a resource is not released while a
 	// computation that registered it has not been superseded or stopped"
-	depEdges   map[int][]depEdge // dependency node -> dependants, as registered by addOut
-	decided    map[int]bool      // release of the node has been decided (shouldRelease seen)
-	liveRoot   map[int]bool      // computation of a rerunner: begun, and neither failed nor superseded nor stopped
-	inProgress map[int]bool      // cached sub-computation: its function is running
-	pubNode    map[int]int       // rerunner -> node of its published computation
-	expectRoot map[int64]bool    // goroutine is between r.mu.Lock and the compute.begin of the rerunner's computation
-	resNode    map[int]bool      // node ids of Resources (slots and InvalidateAfter)
-	phPtr      map[uintptr]bool  // placeholder dependants of AddDependency outside a rerunner (&node{released: true})
+	depEdges   map[int][]depEdge    // dependency node -> dependants, as registered by addOut
+	decided    map[int]bool         // release of the node has been decided (shouldRelease seen)
+	liveRoot   map[int]bool         // computation of a rerunner: begun, and neither failed nor superseded nor stopped
+	inProgress map[int]bool         // cached sub-computation: its function is running
+	pubNode    map[int]int          // rerunner -> node of its published computation
+	expectRoot map[int64]bool       // goroutine is between r.mu.Lock and the compute.begin of the rerunner's computation
+	resNode    map[int]bool         // node ids of Resources (slots and InvalidateAfter)
+	lastAddOut map[int64]addOutInfo // per goroutine: the last addOut it performed
+	phPtr      map[uintptr]bool     // placeholder dependants of AddDependency outside a rerunner (&node{released: true})
 	sawKeyLock bool
 	active     int32
 }
@@ -251,6 +272,7 @@ func (s *Sim) record(gid int64, point string, args []interface{}) {
 			s.keep = append(s.keep, args[1])
 			e.kind, e.a, e.f2, e.f3 = "outadd", s.id(args[0]), args[3].(bool), args[4].(bool)
 			s.used[e.a] = true
+			s.lastAddOut[gid] = addOutInfo{n: e.a, late: s.decided[e.a]}
 			if e.f3 {
 				s.releaseDecided(e.a, "addOut of a released dependant")
 			}
@@ -258,6 +280,7 @@ func (s *Sim) record(gid int64, point string, args []interface{}) {
 		}
 		e.a, e.b, e.f1, e.f2, e.f3 = s.id(args[0]), s.id(args[1]), args[2].(bool), args[3].(bool), args[4].(bool)
 		s.used[e.a] = true
+		s.lastAddOut[gid] = addOutInfo{n: e.a, late: s.decided[e.a]}
 		if e.f1 {
 			s.depEdges[e.a] = append(s.depEdges[e.a], depEdge{to: e.b, late: s.decided[e.a]})
 		}
@@ -343,15 +366,19 @@ func (s *Sim) record(gid int64, point string, args []interface{}) {
 			if !e.f1 {
 				s.expectRoot[gid] = true
 			}
-		} else if n, ok := s.pubNode[e.a]; ok { // Stop: the published computation is stopped
-			delete(s.liveRoot, n)
-			delete(s.pubNode, e.a)
+		} else {
+			s.st[e.a].pubClaims = nil
+			if n, ok := s.pubNode[e.a]; ok { // Stop: the published computation is stopped
+				delete(s.liveRoot, n)
+				delete(s.pubNode, e.a)
+			}
 		}
 	case "reactive.run.publish":
 		e.a, e.f1, e.b = s.rrPtr[ptrOf(args[0])], args[1].(bool), s.id(args[2])
 		st := s.st[e.a]
 		e.val = st.pendingOut
 		st.published, st.hasPub = st.pendingOut, true
+		st.pubClaims, st.pendingClaims = st.pendingClaims, nil
 		if n, ok := s.pubNode[e.a]; ok { // the previous computation is superseded
 			delete(s.liveRoot, n)
 		}
@@ -462,6 +489,12 @@ func (s *Sim) cleanupFunc(sl int, r *reactive.Resource, id int) func() {
 		if s.cleanups[id] > 1 {
 			s.fail("cleanup-ran-twice", fmt.Sprintf("resource node %d of slot %d", id, sl))
 		}
+		for ri, st := range s.st {
+			if st.runClaims[id] > 0 || st.pendingClaims[id] || st.pubClaims[id] {
+				s.fail("cleanup-while-current-computation-depends-on-it",
+					fmt.Sprintf("Cleanup of resource node %d (slot %d) ran while the current computation of rerunner %d, which registered it through AddDependency before its release was decided, is neither superseded nor stopped nor failed", id, sl, ri))
+			}
+		}
 		if x.res == r {
 			fresh, freshID = s.newResLocked(sl)
 			delete(s.current, id)
@@ -478,17 +511,56 @@ func (s *Sim) cleanupFunc(sl int, r *reactive.Resource, id int) func() {
 	}
 }
 
-func (s *Sim) exec(ctx context.Context, ri int, prog []Op, depth int, nth int) ([]pair, error) {
-	var out []pair
+// claim notes that the running computation of rerunner ri depends on resource node id: AddDependency (or the
+// adoption of a cached sub-computation that had registered it) returned, and the release of the node the calling
+// goroutine attached had not been decided before the attachment.  unclaim drops the notes of a part of the run that
+// failed (the nodes it built are released by the failure).
+func (s *Sim) claim(ri int, ids []int, of int, viaAddOut bool) []int {
+	s.mu.Lock()
+	defer s.mu.Unlock()
+	la, ok := s.lastAddOut[curGid()]
+	if viaAddOut && (!ok || la.late || (of >= 0 && la.n != of)) {
+		return nil
+	}
+	st := s.st[ri]
+	if st.runClaims == nil {
+		st.runClaims = map[int]int{}
+	}
+	for _, id := range ids {
+		st.runClaims[id]++
+	}
+	return ids
+}
+
+func (s *Sim) unclaim(ri int, ids []int) {
+	s.mu.Lock()
+	defer s.mu.Unlock()
+	st := s.st[ri]
+	for _, id := range ids {
+		if st.runClaims[id] > 0 {
+			st.runClaims[id]--
+		}
+	}
+}
+
+func (s *Sim) exec(ctx context.Context, ri int, prog []Op, depth int, nth int) (out []pair, claims []int, err error) {
+	defer func() {
+		if err != nil {
+			s.unclaim(ri, claims)
+			claims = nil
+		}
+	}()
 	for _, o := range prog {
 		switch o.Kind {
 		case "dep":
 			x := s.slots[o.Slot]
 			x.mu.Lock()
 			res := x.res
+			rid := x.id
 			s.own(ev{kind: "pick", a: o.Slot, b: x.id}, "pick")
 			x.mu.Unlock()
 			reactive.AddDependency(ctx, res, nil)
+			claims = append(claims, s.claim(ri, []int{rid}, rid, true)...)
 			x.mu.Lock()
 			v := x.ver
 			s.own(ev{kind: "read", a: o.Slot, b: v}, "read")
@@ -507,15 +579,22 @@ func (s *Sim) exec(ctx context.Context, ri int, prog []Op, depth int, nth int) (
 			}
 			body := o.Body
 			v, err := reactive.Cache(ctx, o.Key, func(ctx context.Context) (interface{}, error) {
-				return s.exec(ctx, ri, body, depth+1, nth)
+				ps, cl, err := s.exec(ctx, ri, body, depth+1, nth)
+				if err != nil {
+					return nil, err
+				}
+				// the body's notes now travel with the cached value; whoever adopts it notes them again
+				s.unclaim(ri, cl)
+				return &cval{pairs: ps, claims: cl}, nil
 			})
 			if err != nil {
-				return nil, err
+				return nil, claims, err
 			}
+			claims = append(claims, s.claim(ri, v.(*cval).claims, -1, true)...)
 			if !HooksKeyLock {
 				s.own(ev{kind: "keyunlock", a: ri, b: o.Key}, "keyunlock")
 			}
-			for _, p := range v.([]pair) {
+			for _, p := range v.(*cval).pairs {
 				if p.Depth <= depth {
 					p.Depth = depth + 1
 				}
@@ -531,6 +610,7 @@ func (s *Sim) exec(ctx context.Context, ri int, prog []Op, depth int, nth int) (
 			s.pass("fork")
 			s.mu.Unlock()
 			outs := make([][]pair, len(o.Branches))
+			cls := make([][]int, len(o.Branches))
 			errs := make([]error, len(o.Branches))
 			var wg sync.WaitGroup
 			for bi := range o.Branches {
@@ -538,7 +618,7 @@ func (s *Sim) exec(ctx context.Context, ri int, prog []Op, depth int, nth int) (
 				go func(bi int) {
 					defer wg.Done()
 					s.own(ev{kind: "branch.begin", a: jid, b: bi}, "branch.begin")
-					outs[bi], errs[bi] = s.exec(ctx, ri, o.Branches[bi], depth, nth)
+					outs[bi], cls[bi], errs[bi] = s.exec(ctx, ri, o.Branches[bi], depth, nth)
 					if errs[bi] != nil {
 						s.own(ev{kind: "branch.fail", f1: errs[bi] == reactive.RetrySentinelError}, "branch.fail")
 					}
@@ -553,8 +633,11 @@ func (s *Sim) exec(ctx context.Context, ri int, prog []Op, depth int, nth int) (
 				}
 			}
 			s.own(ev{kind: "join", a: jid, f1: failed}, "join")
+			for _, cl := range cls {
+				claims = append(claims, cl...)
+			}
 			if failed {
-				return nil, errFail
+				return nil, claims, errFail
 			}
 			for _, bo := range outs {
 				out = append(out, bo...)
@@ -563,9 +646,9 @@ func (s *Sim) exec(ctx context.Context, ri int, prog []Op, depth int, nth int) (
 			if atomic.AddInt32(&s.failBud, -1) >= 0 {
 				s.own(ev{kind: "fail.decision"}, "fail.decision")
 				if o.Kind == "fail" {
-					return nil, errFail
+					return nil, claims, errFail
 				}
-				return nil, reactive.RetrySentinelError
+				return nil, claims, reactive.RetrySentinelError
 			}
 			s.own(ev{kind: "skip"}, "skip")
 		}
@@ -573,7 +656,7 @@ func (s *Sim) exec(ctx context.Context, ri int, prog []Op, depth int, nth int) (
 	if out == nil {
 		out = []pair{}
 	}
-	return out, nil
+	return out, claims, nil
 }
 
 func (s *Sim) computeFunc(ri int) reactive.ComputeFunc {
@@ -594,12 +677,22 @@ func (s *Sim) computeFunc(ri int) reactive.ComputeFunc {
 		st.computes++
 		nth := st.computes
 		s.mu.Unlock()
-		out, err := s.exec(ctx, ri, s.c.RRs[ri].Prog, 0, nth)
+		s.mu.Lock()
+		st.runClaims = map[int]int{}
+		s.mu.Unlock()
+		out, _, err := s.exec(ctx, ri, s.c.RRs[ri].Prog, 0, nth)
+		s.mu.Lock()
 		if err == nil {
-			s.mu.Lock()
 			st.pendingOut = out
-			s.mu.Unlock()
+			st.pendingClaims = map[int]bool{}
+			for id, n := range st.runClaims {
+				if n > 0 {
+					st.pendingClaims[id] = true
+				}
+			}
 		}
+		st.runClaims = nil
+		s.mu.Unlock()
 		atomic.AddInt32(&st.inCompute, -1)
 		return out, err
 	}
@@ -658,6 +751,29 @@ func (s *Sim) inject(in Inj) {
 			s.mu.Unlock()
 		}
 		atomic.StoreInt32(&st.stopReturn, 1)
+	case "cancelparent":
+		// the context the rerunner was created with is cancelled by its owner (not through Stop): no further run
+		// starts; the computation stays until Stop
+		st := s.st[in.Target]
+		var cancel context.CancelFunc
+		for i := 0; i < 2000 && cancel == nil; i++ {
+			s.mu.Lock()
+			if in.Target < len(s.rrs) {
+				cancel = st.cancelParent
+			}
+			s.mu.Unlock()
+			if cancel == nil {
+				time.Sleep(50 * time.Microsecond)
+			}
+		}
+		if cancel == nil {
+			return
+		}
+		s.mu.Lock()
+		st.cancelled = true
+		s.events = append(s.events, ev{gid: curGid(), kind: "env.cancel", env: true, a: in.Target})
+		cancel() // under s.mu: no observation of the rerunner can be recorded between the event and the cancellation
+		s.mu.Unlock()
 	case "purge":
 		s.mu.Lock()
 		ctx := s.st[in.Target].ctx
@@ -751,7 +867,7 @@ func RunCase(c *Case) (res *Result) {
 		timers: map[int]int{}, relMarks: map[int]int{}, cleanups: map[int]int{}, used: map[int]bool{}, current: map[int]bool{},
 		timerBud: int32(c.TimerBud), failBud: int32(c.FailBud),
 		depEdges: map[int][]depEdge{}, decided: map[int]bool{}, liveRoot: map[int]bool{}, inProgress: map[int]bool{}, pubNode: map[int]int{},
-		expectRoot: map[int64]bool{}, resNode: map[int]bool{}, phPtr: map[uintptr]bool{}}
+		expectRoot: map[int64]bool{}, resNode: map[int]bool{}, phPtr: map[uintptr]bool{}, lastAddOut: map[int64]addOutInfo{}}
 	res = &Result{Kinds: map[string]int{}}
 	defer func() {
 		if e := recover(); e != nil {
@@ -786,8 +902,11 @@ func RunCase(c *Case) (res *Result) {
 		s.mu.Lock()
 		s.creating = i
 		s.mu.Unlock()
-		rr := reactive.NewRerunner(context.Background(), s.computeFunc(i), time.Duration(r.IntervalUs)*time.Microsecond, r.Spawn)
+		pctx, pcancel := context.WithCancel(context.Background())
+		defer pcancel()
+		rr := reactive.NewRerunner(pctx, s.computeFunc(i), time.Duration(r.IntervalUs)*time.Microsecond, r.Spawn)
 		s.mu.Lock()
+		s.st[i].cancelParent = pcancel
 		s.rrs = append(s.rrs, rr)
 		s.mu.Unlock()
 	}
@@ -805,7 +924,7 @@ func RunCase(c *Case) (res *Result) {
 	} else {
 		// C04 / C08 first half: the last published output is built from current versions only
 		for ri, st := range s.st {
-			if st.stopCalled || st.failed {
+			if st.stopCalled || st.failed || st.cancelled {
 				continue
 			}
 			if !st.hasPub {
@@ -823,10 +942,10 @@ func RunCase(c *Case) (res *Result) {
 				}
 			}
 		}
-		// superseded resources nobody can depend on any more have been cleaned up (unless a failed rerunner pins them)
+		// superseded resources nobody can depend on any more have been cleaned up (unless a failed rerunner, or one whose context was cancelled without Stop, pins them)
 		pinned := false
 		for _, st := range s.st {
-			if st.failed && !st.stopCalled {
+			if (st.failed || st.cancelled) && !st.stopCalled {
 				pinned = true
 			}
 		}
